@@ -411,14 +411,9 @@ func (s *Server) Get(req *spb.GetRequest, stream spb.GRIBI_GetServer) error {
 	// defer a function to stop the goroutine and close all channels, since this will be called
 	// when we exit, then it will stop the goroutine that we started to do
 	// the get in the case that we exit due to some error.
-	defer func() {
-		// Non-blocking write to the stopCh, since if the goroutine has
-		// already returned then it won't be listening and we'll deadlock.
-		select {
-		case stopCh <- struct{}{}:
-		default:
-		}
-	}()
+	// Closing the channel tells the goroutine to stop whenever it next looks,
+	// regardless of whether it is currently listening.
+	defer close(stopCh)
 
 	go s.doGet(req, msgCh, doneCh, stopCh, errCh)
 
